@@ -13,7 +13,7 @@
 Not claimed: byte-identity of the serializers themselves, stdout/stderr interleaving.
 """
 import os
-from engine import cg, mirlib as M, facts
+from engine import cg, flow, mirlib as M, facts
 
 LEVEL = "other"
 THOROUGH_VIEWS = ("cap=3",)   # this module already reads both the library's and the binary's copy where it matters
@@ -184,6 +184,39 @@ def hash_order(ctx):
                sample={"site": key, "class": cls, "reason": reason} if cls in ("singleton", "console") and "report_at_least_one" in key or "generic_summary" in key else None)
 
 
+ACCUMULATORS = ("extend", "push", "append", "extend_from_slice", "collect", "concat", "chain", "insert", "flatten", "flat_map")
+
+
+def singleton_side_condition(ctx):
+    """The one `singleton` row of the table (report_at_least_one iterates a HashMap keyed by left-hand value) is harmless only while each
+    call hands it the comparisons of ONE left-hand value.  Decided: at every call site the first argument's backward slice holds a
+    direct each_lhs_compare result (one per match arm) and no accumulating operation (extend/push/collect…), i.e. it is one compare result, not a batch."""
+    rule = "R-C05-hash-order"
+    n = 0
+    for cr, kind in ((ctx.lib, "lib"), (ctx.bin, "bin")):
+        for k, f in sorted(cr.fns.items()):
+            for bi, t in M.iter_calls(f):
+                p = M.norm_path(t["fn"].get("path", ""))
+                if not p.endswith("rules::eval::report_at_least_one"):
+                    continue
+                n += 1
+                pl = M.op_place(t["args"][0])
+                key = "%s:singleton-side-condition:%s:%s#%d" % (rule, kind, k, n)
+                if pl is None:
+                    ctx.ob(rule, key, False, "constant argument", fn=f, line=t.get("ln", 0))
+                    continue
+                calls, consts, locs = flow.backward_slice(f, M.place_local(pl))
+                names = [M.norm_path(c["fn"].get("path", "")) for c in calls]
+                cmp_calls = [c for c, nme in zip(calls, names) if nme.endswith("rules::eval::each_lhs_compare")]
+                acc = sorted(set(nme for nme in names if nme.split("::")[-1] in ACCUMULATORS))
+                ok = len(cmp_calls) >= 1 and not acc
+                ctx.ob(rule, key, ok, "one each_lhs_compare result per call (one left-hand value, so the grouping map has one entry)" if ok else
+                       "report_at_least_one receives a batch (%d compare call sites, accumulated through %s): its HashMap keyed by left-hand value then has several entries and is iterated in hash order into the verdict list" % (len(cmp_calls), acc or "-"),
+                       fn=f, line=t.get("ln", 0))
+    if n < 2:
+        ctx.lost(rule, rule + ":singleton-side-condition:floor", "call sites of report_at_least_one: %d (floor 2, one per crate copy)" % n)
+
+
 def serialized_types(ctx):
     rule = "R-C05-serialized-types"
     cr = ctx.lib
@@ -321,6 +354,49 @@ def never_populated(ctx, cr, adt, fname):
     return True
 
 
+def colour_sources(ctx, table):
+    """`colored` decides at run time (CLICOLOR_FORCE / NO_COLOR / isatty) whether a ColoredString renders escape sequences; the
+    decision is taken in <ColoredString as Display>::fmt.  A ColoredString that is only dereferenced (write_str(&"x".red())) yields the
+    plain text.  So the ambient read is *formatting* a ColoredString; it may only happen in functions that no builder of structured
+    (serialised) output reaches, or at a reviewed site."""
+    rule = "R-C05-ambient-sources"
+    n = 0
+    for cr, kind in ((ctx.lib, "lib"), (ctx.bin, "bin")):
+        g = cg.CallGraph(cr)
+        roots = [k for k in cr.fns if any(w in k.lower() for w in ("structured", "sarif", "junit")) or k.endswith("simplified_json_from_root")
+                 or "report_all_failed_clauses_for_rules" in k or "::serde::Serialize" in k or "as serde::Serialize>" in k]
+        if len(roots) < 50:
+            ctx.lost(rule, "%s:colour:%s:roots" % (rule, kind), "only %d structured-output builders found (floor 50)" % len(roots))
+        reach = g.reachable(roots, rta=False)
+        for k in sorted(cr.fns):
+            f = cr.fns[k]
+            hits = []
+            for bi, t in M.iter_calls(f):
+                p = M.norm_path(t["fn"].get("path", ""))
+                d = M.norm_path(t["fn"].get("decl", ""))
+                is_fmt = p.endswith("Argument::new_display") or d in ("std::string::ToString::to_string", "std::fmt::Display::fmt")
+                if not is_fmt:
+                    continue
+                tys = [M.Ty(cr, x) for x in t["fn"].get("ga", [])]
+                if t["fn"].get("self") is not None:
+                    tys.append(M.Ty(cr, t["fn"]["self"]))
+                if any((ty.strip_refs().adt_path() or "").endswith("ColoredString") for ty in tys):
+                    hits.append(t)
+            if not hits:
+                continue
+            n += 1
+            key = "%s:tty/env:colored" % k
+            ent = table.get(key)
+            if k not in reach:
+                ctx.ob(rule, "%s:%s" % (kind, key), True, "a ColoredString is formatted here, in a function no structured-output builder reaches (console text only)", fn=f, line=hits[0].get("ln", 0))
+            else:
+                ctx.ob(rule, "%s:%s" % (kind, key), ent is not None, ("reviewed: " + ent[0]) if ent else
+                       "a ColoredString is formatted (escape sequences depend on CLICOLOR_FORCE / NO_COLOR / the terminal) in a function reached by the builders of structured output: serialised text would depend on the environment",
+                       fn=f, line=hits[0].get("ln", 0))
+    if n < 10:
+        ctx.lost(rule, rule + ":colour:floor", "only %d functions formatting a ColoredString found (floor 10 over both crate copies)" % n)
+
+
 def ambient(ctx):
     rule = "R-C05-ambient-sources"
     table = load_table(AMBIENT)
@@ -348,6 +424,7 @@ def ambient(ctx):
                     src = "address:" + p.split("::")[-1]
                 if src:
                     found.setdefault("%s:%s" % (k, src), (f, t))
+    colour_sources(ctx, table)
     ctx.note_analysed("ambient_sources", sorted(found))
     for key in sorted(found):
         f, t = found[key]
@@ -394,6 +471,7 @@ def ambient(ctx):
 
 def run(ctx):
     hash_order(ctx)
+    singleton_side_condition(ctx)
     serialized_types(ctx)
     ambient(ctx)
     ctx.assumptions += [
